@@ -260,6 +260,10 @@ def run_shard(desc):
             plans = [reg_plan_a, reg_plan_b]
             for e in range(E):
                 plan = []
+                if e == 0:
+                    # a contained handler panic on this thread must not affect any other call (no poisoned registry)
+                    plan.append({"op": "reg_fn", "name": "pz", "beh": {"id": 8999, "ret": "last"}})
+                    plan.append({"op": "exec", "text": "pz(1)", "fault": {"k": 1, "kind": "panic"}})
                 for phase in (1, 2):
                     for i, nm in enumerate(names):
                         for it in range(4):
